@@ -101,25 +101,30 @@ mutual
                   | .ok (items, off') =>
                     .ok (.cons tag items, if indefinite then off' + 2 else contentEnd)
   termination_by structural fuel => fuel
-  /-- the loop `for (offset < contentEnd) || indefinite { subObj, offset = readObjectDepth(..., depth) … }`
-      (`depth` is the depth of the children, i.e. that of the enclosing object plus one) -/
+  /-- the loop `for (offset < contentEnd) || indefinite { … subObj, offset = readObjectDepth(..., depth) … }`
+      (`depth` is the depth of the children, i.e. that of the enclosing object plus one).  In the indefinite
+      case the end-of-contents test (`isIndefiniteTermination`) comes BEFORE each member, so a value with no
+      members (`30 80 00 00`) is read as such. -/
   def readItems : Nat → Bytes → Nat → Nat → Bool → Nat → Except Err (List Obj × Nat)
     | 0, _, _, _, _, _ => .error .fuel
     | fuel+1, ber, offset, contentEnd, indefinite, depth =>
-      if ¬ (offset < contentEnd ∨ indefinite) then .ok ([], offset)
+      if indefinite then
+        -- isIndefiniteTermination
+        if ber.length - offset < 2 then .error .invalid
+        else if ber.getD offset 1 = 0 ∧ ber.getD (offset + 1) 1 = 0 then .ok ([], offset)
+        else
+          match readObject fuel ber offset depth with
+          | .error e => .error e
+          | .ok (o, off') =>
+            match readItems fuel ber off' contentEnd indefinite depth with
+            | .error e => .error e
+            | .ok (os, off'') => .ok (o :: os, off'')
+      else if ¬ (offset < contentEnd) then .ok ([], offset)
       else
         match readObject fuel ber offset depth with
         | .error e => .error e
         | .ok (o, off') =>
-          if indefinite then
-            -- isIndefiniteTermination
-            if ber.length - off' < 2 then .error .invalid
-            else if ber.getD off' 1 = 0 ∧ ber.getD (off' + 1) 1 = 0 then .ok ([o], off')
-            else
-              match readItems fuel ber off' contentEnd indefinite depth with
-              | .error e => .error e
-              | .ok (os, off'') => .ok (o :: os, off'')
-          else if off' > contentEnd then .error .beyondParent   -- a member must end inside its definite-length parent
+          if off' > contentEnd then .error .beyondParent   -- a member must end inside its definite-length parent
           else
             match readItems fuel ber off' contentEnd indefinite depth with
             | .error e => .error e
